@@ -6,6 +6,11 @@ VERIF = os.path.dirname(os.path.dirname(os.path.abspath(__file__)))
 ALL = ["C%02d" % i for i in range(1, 21)]
 
 CLAIMED = {
+ "C03": dict(
+   technique="TLA+ spec Datapath.tla: one flow (tcp / udp / dns x forwarded-LAN / locally-originated-WAN) with the abstract content of conn_state_map and routing_handoff_map, the rules' current answer, group health bits and a clock; actions transcribed from do_tproxy_lan_ingress, do_tproxy_wan_egress_{tcp,udp}, do_tproxy_wan_ingress and __mark_{tcp,udp}_seen; model-checked with TLC; simulated behaviours replayed packet by packet on the real tc programs executed by the kernel (BPF_PROG_TEST_RUN) over real maps, decisions read back with the production RetrieveRoutingResult",
+   text="TLC checks DirectPasses, BlockDrops, DeadGroupDrops, RedirectCarriesDecision, StickyWhileTracked (+ action property), SynRoutesAfresh, DnsStateless, OwnTrafficNeverCaptured and WanOriginatedRepliesPass exhaustively for all 4-event histories of the six flow classes and simulates 8-event histories (packets SYN/EST/FIN/datagram by user, dae pid or dae socket mark; reverse-direction packets; clock steps across the 1 s / 10 s / 120 s thresholds; rule changes among direct, direct+mark, block, proxy, must proxy+mark; group health flips). Each history runs on the kernel programs with frames in both parser paths (short / >=128 bytes), IPv4 and IPv6 with and without a hop-by-hop header: verdict, skb mark, cb tag, and for redirects the decision (outbound, mark, must, dscp, source MAC, process) recovered by the control plane are compared; the health bit is placed in the flow's own slot with every other slot of the group contradicting it.",
+   note="Not driven: L3 link types, IPv4/IPv6 fragments and truncated frames (parse outcome only through the pass/drop classes of C19's parser vectors), the local-socket lookup, a full conn_state_map, dae0 / dae0peer hooks. Trusted: TLC, the kernel's BPF_PROG_TEST_RUN.",
+   design="§3 C03"),
  "C05": dict(
    technique="Timed TLA+ spec TcpRelay.tla (one proxied connection: client / server writes of several segment kinds, half-closes in any order, idle periods relative to the DNS-detection, prefetch, sniffing and half-close-grace windows; the obligations after every event: prefix always, nothing withheld after the windows, end of stream passed on, a direction ended only after the opposite end of stream plus grace, idle time never ends a connection) model-checked with TLC; simulated behaviours replayed event by event on the real ControlPlane.handleConn over in-memory TCP-like sockets in virtual time (testing/synctest)",
    text="TLC checks the obligations' own consistency exhaustively for all 4-event histories (Monotone, EndsOnlyAfterEof, IdleNeverCuts, DelayBounded) and simulates 7-event histories for ports 443 and 53. Each is executed on the real handleConn (DNS-over-TCP detection with bufio fall-through, prefetch, ConnSniffer, routeDial through a one-node group to a fake destination, RelayTCPContextWithRecords with the gather / loop copy paths): after every event the bytes received on both ends are compared with the bytes sent (prefix, completeness once the detection windows are over), end-of-stream propagation, and whether the relay ended the connection without licence. This found and fixed three defects (uint16 overflow panic on port 53, leaked 5 s DNS-probe deadline, half-close not forwarded through the sniffing wrappers) and depends on the sniffer fix recorded under C06.",
